@@ -45,24 +45,47 @@ def sentinel_rule(ctx, rid):
         need(len(kws) == 1, "idiom changed: Reaper(...) default keyword in %s" % m.qualname)
         pname = kws[0]
         v = arg(c, None, pname)
-        # provenance: second component of calc_clean_up_default_res
-        src = None
-        g = build_cfg(m.node)
-        for nd in g.nodes:
-            if nd.kind == "stmt" and isinstance(nd.ast, ast.Assign) and isinstance(nd.ast.value, ast.Call) and \
-                    callee_name(ctx, m, nd.ast.value) == CROP + ".calc_clean_up_default_res":
-                t = nd.ast.targets[0]
-                if isinstance(t, ast.Tuple) and len(t.elts) == 2 and norm(t.elts[1]) == norm(v):
-                    src = nd
-        if src is None and isinstance(v, ast.Name):
+        # provenance: second component of calc_clean_up_default_res, possibly through local aliases / tuple assignments
+        def origin(e, seen=()):
+            """('calc', i) | ('const', text) | ('placeholder-attr',) | None (not followed)"""
+            if isinstance(e, ast.Constant):
+                return ("const", norm(e))
+            if isinstance(e, ast.Attribute) and e.attr == "all_nan_result":
+                return ("placeholder-attr",)
+            if not isinstance(e, ast.Name) or e.id in seen:
+                return None
+            outs = set()
+            defs_ = 0
             for st_ in ast.walk(m.node):
-                if isinstance(st_, ast.Assign) and isinstance(st_.value, ast.Call) and callee_name(ctx, m, st_.value) != CROP + ".calc_clean_up_default_res" and \
-                        any(isinstance(x_, ast.Name) and x_.id == v.id for t_ in st_.targets for x_ in ast.walk(t_)):
-                    raise AnalysisError("idiom changed: the Reaper's %s in %s comes from `%s`, not directly from calc_clean_up_default_res" % (pname, m.qualname, norm(st_.value)[:60]))
-        if src is None:
-            rr.bad(ctx.finding(rid, m, c, "the Reaper's %s=%s is not the placeholder decided by calc_clean_up_default_res" % (pname, norm(v)), construct="reaper-default-provenance"), "%s default provenance" % m.name)
-        else:
+                if not isinstance(st_, ast.Assign) or len(st_.targets) != 1:
+                    if isinstance(st_, (ast.AugAssign, ast.For, ast.With, ast.NamedExpr)) and any(isinstance(x_, ast.Name) and x_.id == e.id and isinstance(x_.ctx, ast.Store) for x_ in ast.walk(st_)) \
+                            and not isinstance(st_, ast.With):
+                        return None
+                    continue
+                t_ = st_.targets[0]
+                if isinstance(t_, ast.Name) and t_.id == e.id:
+                    defs_ += 1
+                    outs.add(origin(st_.value, seen + (e.id,)))
+                elif isinstance(t_, ast.Tuple) and any(isinstance(x_, ast.Name) and x_.id == e.id for x_ in t_.elts):
+                    defs_ += 1
+                    i_ = [k_ for k_, x_ in enumerate(t_.elts) if isinstance(x_, ast.Name) and x_.id == e.id][0]
+                    if isinstance(st_.value, ast.Call) and callee_name(ctx, m, st_.value) == CROP + ".calc_clean_up_default_res" and len(t_.elts) == 2:
+                        outs.add(("calc", i_))
+                    elif isinstance(st_.value, ast.Tuple) and len(st_.value.elts) == len(t_.elts):
+                        outs.add(origin(st_.value.elts[i_], seen + (e.id,)))
+                    else:
+                        outs.add(None)
+            if defs_ == 0 or len(outs) != 1:
+                return None
+            return outs.pop()
+        org = origin(v)
+        if org == ("calc", 1):
             rr.ok("%s: Reaper(%s=...) receives the second result of calc_clean_up_default_res" % (m.name, pname))
+        elif org is None:
+            raise AnalysisError("idiom changed: where the Reaper's %s=%s in %s comes from is not followed back to calc_clean_up_default_res" % (pname, norm(v)[:40], m.qualname))
+        else:
+            what_ = {"calc": "the clean-up flag (first result of calc_clean_up_default_res)", "const": "the constant %s" % (org[1] if len(org) > 1 else ""), "placeholder-attr": "the placeholder itself, unconditionally"}[org[0]]
+            rr.bad(ctx.finding(rid, m, c, "the Reaper's %s=%s is %s, not the placeholder decided by calc_clean_up_default_res" % (pname, norm(v), what_), construct="reaper-default-provenance"), "%s default provenance" % m.name)
     # the test in _load (the parameter may have been stored on the instance under another name: self.X = <param>)
     attr_of_param = pname
     for st_ in ast.walk(init.node):
@@ -103,40 +126,76 @@ def sentinel_rule(ctx, rid):
             return wait_v
         if isinstance(e, ast.Call) and norm(e.func) in ("os.path.isfile", "os.path.exists"):
             return file_v
+        if isinstance(e, ast.Constant) and isinstance(e.value, bool):
+            return e.value
         raise AnalysisError("idiom changed: term `%s` of the Reaper's use-default decision" % norm(e))
 
     # which If decides between the stand-ins and the read, and with which expression?
-    def _has_standin(stmts):
+    def _has_standin(stmts, fn_=None, depth=0):
         for s_ in stmts:
             for x in ast.walk(s_):
                 if isinstance(x, ast.BinOp) and isinstance(x.op, ast.Mult) and any(isinstance(y, ast.Tuple) and any(norm(z).split(".")[-1].lstrip("_") in (pname.lstrip("_"), attr_of_param.lstrip("_")) for z in y.elts) for y in (x.left, x.right)):
                     return True
+                # ... or built by a sibling helper of the loader (a closure of the same function / a method of the same class)
+                if isinstance(x, ast.Call) and fn_ is not None and depth < 1:
+                    h_ = _cf(ctx, fn_, x)
+                    if h_ is not None and h_ in scan and h_ is not fn_ and not any(isinstance(y, ast.If) for y in walk_shallow(h_.node)) and _has_standin(h_.node.body, h_, depth + 1):
+                        return True
         return False
     standin_when = True
     ctrls = []
     for fn_ in scan:
         for x in walk_shallow(fn_.node):
-            if isinstance(x, ast.If) and _has_standin(x.body) != _has_standin(x.orelse):
+            if isinstance(x, ast.If) and _has_standin(x.body, fn_) != _has_standin(x.orelse, fn_):
                 ctrls.append((fn_, x))
+    if len(ctrls) > 1:
+        # the If that calls the helper and an If inside the helper: the outermost (in the loader itself) decides
+        outer = [c_ for c_ in ctrls if c_[0] is ld]
+        if len(outer) == 1:
+            ctrls = outer
     need(len(ctrls) == 1, "idiom changed: which outcome of the Reaper's use-default decision builds the stand-ins")
     cfn, ctrl = ctrls[0]
     test_e = ctrl.test
     pol = True
     while isinstance(test_e, ast.UnaryOp) and isinstance(test_e.op, ast.Not):
         test_e, pol = test_e.operand, not pol
-    standin_when = pol if _has_standin(ctrl.body) else not pol
+    standin_when = pol if _has_standin(ctrl.body, cfn) else not pol
 
-    def expand(e, depth=0):
-        """the decision expression with flag variables replaced by their (first, non-constant) definitions"""
+    def _pred_expr(h_):
+        """a predicate helper `if c: return A` ... `return B` as one boolean expression (None: another shape)"""
+        body_ = [s_ for s_ in h_.node.body if not (isinstance(s_, ast.Expr) and isinstance(s_.value, ast.Constant))]
+        body_ = [s_ for s_ in body_ if not (isinstance(s_, ast.Assign) and isinstance(s_.targets[0], ast.Name))]     # flag definitions are looked up by expand
+        if not body_ or not isinstance(body_[-1], ast.Return) or body_[-1].value is None:
+            return None
+        out_ = body_[-1].value
+        for s_ in reversed(body_[:-1]):
+            if not (isinstance(s_, ast.If) and len(s_.body) == 1 and isinstance(s_.body[0], ast.Return) and s_.body[0].value is not None and not s_.orelse):
+                return None
+            # ite(c, a, rest) == (c and a) or (not c and rest)
+            out_ = ast.BoolOp(op=ast.Or(), values=[ast.BoolOp(op=ast.And(), values=[s_.test, s_.body[0].value]),
+                                                  ast.BoolOp(op=ast.And(), values=[ast.UnaryOp(op=ast.Not(), operand=s_.test), out_])])
+        return out_
+
+    def expand(e, depth=0, fn_=None):
+        """the decision expression with flag variables replaced by their (first, non-constant) definitions and
+        predicate helpers of the loader replaced by their bodies"""
+        fn_ = fn_ or cfn
         if isinstance(e, ast.Name) and depth < 4:
-            defs_ = sorted((n_ for n_ in walk_shallow(cfn.node) if isinstance(n_, ast.Assign) and isinstance(n_.targets[0], ast.Name) and n_.targets[0].id == e.id and not isinstance(n_.value, ast.Constant)), key=lambda n_: n_.lineno)
+            defs_ = sorted((n_ for n_ in walk_shallow(fn_.node) if isinstance(n_, ast.Assign) and isinstance(n_.targets[0], ast.Name) and n_.targets[0].id == e.id and not isinstance(n_.value, ast.Constant)), key=lambda n_: n_.lineno)
             if len(defs_) == 1:
-                return expand(defs_[0].value, depth + 1)
+                return expand(defs_[0].value, depth + 1, fn_)
+            return e
+        if isinstance(e, ast.Call) and depth < 4 and norm(e.func) not in ("os.path.isfile", "os.path.exists"):
+            h_ = _cf(ctx, fn_, e)
+            if h_ is not None and h_ in scan and h_ is not fn_:
+                pe_ = _pred_expr(h_)
+                if pe_ is not None:
+                    return expand(pe_, depth + 1, h_)
             return e
         if isinstance(e, ast.BoolOp):
-            return ast.BoolOp(op=e.op, values=[expand(v_, depth) for v_ in e.values])
+            return ast.BoolOp(op=e.op, values=[expand(v_, depth, fn_) for v_ in e.values])
         if isinstance(e, ast.UnaryOp) and isinstance(e.op, ast.Not):
-            return ast.UnaryOp(op=e.op, operand=expand(e.operand, depth))
+            return ast.UnaryOp(op=e.op, operand=expand(e.operand, depth, fn_))
         return e
     holder = expand(test_e)
     need(t_txt in norm(holder), "idiom changed: the test that selects the stand-ins (`%s`) does not involve the no-default sentinel" % norm(test_e)[:60])
